@@ -423,9 +423,31 @@ def r18_8(ctx: Ctx) -> None:
         if without:
             continue  # the arm that runs without a callback
         qa = next((k.value for k in c.keywords if k.arg == "q"), None)
-        ctx.check(qa is not None and norm(qa) == "self.q", "R18.8", f, c, "an extraction with a callback hands the queue to the worker",
+
+        def is_queue(e: ast.AST, depth: int = 3) -> bool:
+            # `self.q`, or a local that is `self.q` whenever a callback was given (`self.q if callback is not None else None`)
+            if norm(e) == "self.q":
+                return True
+            if isinstance(e, ast.IfExp):
+                nt = q.is_none_test(e.test)
+                if nt is not None and norm(nt[0]) == cbp:
+                    return is_queue(e.orelse if nt[1] else e.body, depth)
+                return is_queue(e.body, depth) and is_queue(e.orelse, depth)
+            if isinstance(e, ast.Name) and depth > 0:
+                vals = q.assigned_values(f, e.id)
+                return bool(vals) and all(is_queue(v, depth - 1) or (isinstance(v, ast.Constant) and v.value is None and _under_no_callback(f, e.id, v, cbp)) for v in vals)
+            return False
+        ctx.check(qa is not None and is_queue(qa), "R18.8", f, c, "an extraction with a callback hands the queue to the worker",
                   "a Worker.extract call that runs when a callback was given does not pass `q=self.q`: the worker reports nothing, the callback sees 'pre' and 'post' only",
                   construct="worker without the queue")
+
+
+def _under_no_callback(f, name: str, val: ast.AST, cbp: str) -> bool:
+    """is the assignment `name = None` made only where no callback was given?"""
+    for n in walk(f.node):
+        if isinstance(n, ast.Assign) and n.value is val:
+            return any((nt := q.is_none_test(cd)) is not None and norm(nt[0]) == cbp and nt[1] == pol for cd, pol in q.facts_at(f, n))
+    return False
 
 
 def r18_9(ctx: Ctx) -> None:
